@@ -141,17 +141,14 @@ def reference(hname):
   if hname in _REF:
     return _REF[hname]
   make = make_world(hname)
-  finals = set()
-  n = len(make())
-  for perm in itertools.permutations(range(n)):
-    bodies = make()
-    outs = sched.run_sequential([bodies[i] for i in perm])
-    for o in outs:
-      if 'e' in o:
-        raise RuntimeError('sequential run of %s raised %r' % (hname, o['e']))
-    finals.add(gin.operative_config_str())
-  if len(finals) != 1:
-    raise RuntimeError('sequential orders of %s disagree: %r' % (hname, finals))
+  # Reference = the threads' bodies run one after another in thread order.  The other sequential orders are
+  # themselves zero-preemption schedules and are compared with this reference by the exploration.
+  bodies = make()
+  outs = sched.run_sequential(bodies)
+  for o in outs:
+    if 'e' in o:
+      raise RuntimeError('sequential run of %s raised %r' % (hname, o['e']))
+  finals = {gin.operative_config_str()}
   # warm caches (arg-spec cache etc.) so that traced executions are line-for-line identical
   _REF[hname] = finals.pop()
   return _REF[hname]
